@@ -152,7 +152,8 @@ class Spec(object):
         return "reneged_record" in res.flags or "baulk_considered" in res.flags or "baulked" in res.flags
 
     def families(self, tier):
-        return focused(tier)
+        from .. import universal
+        return focused(tier) + universal.subset(tier, ["renege", "baulk", "jockey"])
 
 
 def focused(tier):
